@@ -1,8 +1,275 @@
-/- EmdModel.Maps — (stub; filled in by the property that owns it) -/
+/-
+  EmdModel.Maps — model of the index maps of emd/_cycles_support.py and of the two
+  constructors emd/cycles.py:get_subset_vector / get_chain_vector (C16).
+
+  Four levels: samples, cycles, subset cycles, chains.  Three label vectors tie them
+  together (`List Int`, -1 = "none"):
+
+    cv : one entry per sample   -> cycle index
+    sv : one entry per cycle    -> subset index
+    ch : one entry per subset cycle -> chain index
+
+  Lookups of the form `np.where(v == k)[0]` are `whereEq`; lookups of the form `v[i]`
+  are `v[i]?` with the missing case reported as IndexError.  Functions that return
+  `None` in Python return `Option`; functions that can raise return `Except Err`.
+  Indices handed to the model are natural numbers (Python's negative indexing is not
+  part of the modelled interface).
+-/
 import EmdModel.Protocol
 
 namespace Maps
 
-def handle (_o : Protocol.Op) : Option String := none
+inductive Err where
+  | indexError
+  | typeError
+  | valueError
+  deriving DecidableEq, Repr
+
+def Err.name : Err → String
+  | .indexError => "IndexError"
+  | .typeError => "TypeError"
+  | .valueError => "ValueError"
+
+/-! ## constructors -/
+
+/-- get_subset_vector: running count of selected cycles, -1 for the others -/
+def subsetFrom : Nat → List Bool → List Int
+  | _, [] => []
+  | c, true :: t => (c : Int) :: subsetFrom (c + 1) t
+  | c, false :: t => -1 :: subsetFrom c t
+
+def subsetVector (valids : List Bool) : List Int := subsetFrom 0 valids
+
+/-- `np.where(v > -1)[0]`, positions counted from `off` -/
+def selectedFrom : Nat → List Int → List Nat
+  | _, [] => []
+  | off, x :: t => if -1 < x then off :: selectedFrom (off + 1) t else selectedFrom (off + 1) t
+
+def selected (sv : List Int) : List Nat := selectedFrom 0 sv
+
+/-- the counting loop of get_chain_vector over the cycle indices of the subset;
+    `prev` is the previous index, `count` the current chain number.  The third branch
+    (difference ≤ 0) leaves the initial -1 in place, as the implementation would. -/
+def chainFrom (count : Nat) (prev : Nat) : List Nat → List Int
+  | [] => []
+  | i :: t =>
+    if i = prev + 1 then (count : Int) :: chainFrom count i t
+    else if prev + 1 < i then ((count + 1 : Nat) : Int) :: chainFrom (count + 1) i t
+    else -1 :: chainFrom count i t
+
+/-- get_chain_vector: the first difference is defined to be 1, so the first subset cycle
+    opens chain 0 -/
+def chainVector (sv : List Int) : List Int :=
+  match selected sv with
+  | [] => []
+  | i :: t => 0 :: chainFrom 0 i t
+
+/-! ## lookups -/
+
+/-- `np.where(v == k)[0]`, positions counted from `off` -/
+def whereFrom (k : Int) : Nat → List Int → List Nat
+  | _, [] => []
+  | off, x :: t => if x = k then off :: whereFrom k (off + 1) t else whereFrom k (off + 1) t
+
+def whereEq (v : List Int) (k : Nat) : List Nat := whereFrom (k : Int) 0 v
+
+/-- `x if x > -1 else None` -/
+def label? (l : Int) : Option Nat := if -1 < l then some l.toNat else none
+
+/-- `v[i]`, then `x if x > -1 else None` -/
+def lookupLabel (v : List Int) (i : Nat) : Except Err (Option Nat) :=
+  match v[i]? with
+  | none => .error .indexError
+  | some l => .ok (label? l)
+
+/-! ## the twelve maps -/
+
+def mapCycleToSamples (cv : List Int) (k : Nat) : List Nat := whereEq cv k
+
+def mapSampleToCycle (cv : List Int) (i : Nat) : Except Err (Option Nat) := lookupLabel cv i
+
+def mapSubsetToCycle (sv : List Int) (j : Nat) : List Nat := whereEq sv j
+
+def mapCycleToSubset (sv : List Int) (k : Nat) : Except Err (Option Nat) := lookupLabel sv k
+
+/-- `cycle_vect == all_cycle_ind` compares against the array of cycles carrying subset index j.
+    One cycle: an ordinary lookup.  No cycle (index beyond the subset): numpy broadcasts an
+    empty array against recordings of length ≤ 1 (empty result) and refuses longer ones.
+    Several cycles cannot happen for a subset vector (every index names at most one cycle);
+    reported as ValueError. -/
+def mapSubsetToSample (sv cv : List Int) (j : Nat) : Except Err (List Nat) :=
+  match mapSubsetToCycle sv j with
+  | [k] => .ok (mapCycleToSamples cv k)
+  | [] => if cv.length ≤ 1 then .ok [] else .error .valueError
+  | _ :: _ :: _ => .error .valueError
+
+def mapSampleToSubset (sv cv : List Int) (i : Nat) : Except Err (Option Nat) :=
+  match mapSampleToCycle cv i with
+  | .error e => .error e
+  | .ok none => .ok none
+  | .ok (some k) => mapCycleToSubset sv k
+
+def mapChainToSubset (ch : List Int) (c : Nat) : List Nat := whereEq ch c
+
+/-- returns the raw entry of the chain vector -/
+def mapSubsetToChain (ch : List Int) (j : Nat) : Except Err Int :=
+  match ch[j]? with
+  | none => .error .indexError
+  | some l => .ok l
+
+def mapCycleToChain (ch sv : List Int) (k : Nat) : Except Err (Option Int) :=
+  match mapCycleToSubset sv k with
+  | .error e => .error e
+  | .ok none => .ok none
+  | .ok (some j) =>
+    match mapSubsetToChain ch j with
+    | .error e => .error e
+    | .ok c => .ok (some c)
+
+/-- `np.squeeze` of a list of one-element arrays, made 1-d again -/
+def singletons? : List (List Nat) → Option (List Nat)
+  | [] => some []
+  | [k] :: t => (singletons? t).map (k :: ·)
+  | _ :: _ => none
+
+def mapChainToCycle (ch sv : List Int) (c : Nat) : Except Err (List Nat) :=
+  match singletons? ((mapChainToSubset ch c).map (mapSubsetToCycle sv)) with
+  | some ks => .ok ks
+  | none => .error .valueError
+
+/-- concatenation of per-subset results, first error wins -/
+def collect : List (Except Err (List Nat)) → Except Err (List Nat)
+  | [] => .ok []
+  | .error e :: _ => .error e
+  | .ok a :: t =>
+    match collect t with
+    | .ok r => .ok (a ++ r)
+    | .error e => .error e
+
+/-- `np.hstack` of an empty list raises -/
+def mapChainToSamples (ch sv cv : List Int) (c : Nat) : Except Err (List Nat) :=
+  match mapChainToSubset ch c with
+  | [] => .error .valueError
+  | js => collect (js.map (mapSubsetToSample sv cv))
+
+def mapSampleToChain (ch sv cv : List Int) (i : Nat) : Except Err (Option Int) :=
+  match mapSampleToSubset sv cv i with
+  | .error e => .error e
+  | .ok none => .ok none
+  | .ok (some j) =>
+    match mapSubsetToChain ch j with
+    | .error e => .error e
+    | .ok c => .ok (some c)
+
+/-! ## the six projections (values may be NaN = `none`) -/
+
+abbrev Vals := List (Option Rat)
+
+/-- `out[inds] = v` -/
+def assignAt (out : Vals) (inds : List Nat) (v : Option Rat) : Vals :=
+  inds.foldl (fun o i => o.set i v) out
+
+/-- `out = nan(n); for ii in range(len(vals)): out[lookup(ii)] = vals[ii]` -/
+def projectLoop (lookup : Nat → List Nat) (n : Nat) (vals : Vals) : Vals :=
+  (List.range vals.length).foldl (fun out k => assignAt out (lookup k) (vals[k]?).join)
+    (List.replicate n none)
+
+def projectCyclesToSamples (vals : Vals) (cv : List Int) : Vals :=
+  projectLoop (mapCycleToSamples cv) cv.length vals
+
+def projectSubsetToCycles (vals : Vals) (sv : List Int) : Vals :=
+  projectLoop (mapSubsetToCycle sv) sv.length vals
+
+def projectSubsetToSamples (vals : Vals) (sv cv : List Int) : Vals :=
+  projectLoop (mapCycleToSamples cv) cv.length (projectSubsetToCycles vals sv)
+
+def projectChainToSubset (vals : Vals) (ch : List Int) : Vals :=
+  projectLoop (mapChainToSubset ch) ch.length vals
+
+def projectChainToCycles (vals : Vals) (ch sv : List Int) : Vals :=
+  projectSubsetToCycles (projectChainToSubset vals ch) sv
+
+def projectChainToSamples (vals : Vals) (ch sv cv : List Int) : Vals :=
+  projectCyclesToSamples (projectChainToCycles vals ch sv) cv
+
+/-! ## sizes, as the implementation computes them (`max + 1`) -/
+
+def maxLabel (v : List Int) : Int := v.foldl max (-1)
+
+/-- `np.max(v) + 1` for a label vector (0 when nothing is labelled) -/
+def nLabels (v : List Int) : Nat := (maxLabel v + 1).toNat
+
+
+/-! ## protocol -/
+
+open Protocol
+
+def fmtNatList (l : List Nat) : String :=
+  if l.isEmpty then "-" else ",".intercalate (l.map toString)
+
+def fmtExList : Except Err (List Nat) → String
+  | .ok l => fmtNatList l
+  | .error e => "E:" ++ e.name
+
+def fmtExOptNat : Except Err (Option Nat) → String
+  | .ok (some k) => toString k
+  | .ok none => "none"
+  | .error e => "E:" ++ e.name
+
+def fmtExOptInt : Except Err (Option Int) → String
+  | .ok (some k) => toString k
+  | .ok none => "none"
+  | .error e => "E:" ++ e.name
+
+def fmtExInt : Except Err Int → String
+  | .ok k => toString k
+  | .error e => "E:" ++ e.name
+
+def joinW (l : List String) : String := " ".intercalate l
+
+def optVals (v : List Rat) : Vals := v.map some
+
+/-- MAPS | cv | valids | vals per cycle | vals per subset cycle | vals per chain
+    answers every map on every index 0..size (one past the end included) and the six
+    projections. -/
+def handle (o : Op) : Option String :=
+  match o.name with
+  | "MAPS" => some <| Id.run do
+      let some cvr := o.vec? 0 | return "bad-op"
+      let some cv := toInts? cvr | return "bad-op"
+      let some vr := o.vec? 1 | return "bad-op"
+      let some valids := toBools? vr | return "bad-op"
+      let some vc := o.vec? 2 | return "bad-op"
+      let some vs := o.vec? 3 | return "bad-op"
+      let some vh := o.vec? 4 | return "bad-op"
+      let sv := subsetVector valids
+      let ch := chainVector sv
+      let n := cv.length
+      let K := sv.length
+      let S := nLabels sv
+      let C := nLabels ch
+      let upto (m : Nat) := List.range (m + 1)
+      let parts : List String := [
+        fmtInts sv, fmtInts ch,
+        joinW ((upto n).map fun i => fmtExOptNat (mapSampleToCycle cv i)),
+        joinW ((upto K).map fun k => fmtNatList (mapCycleToSamples cv k)),
+        joinW ((upto S).map fun j => fmtNatList (mapSubsetToCycle sv j)),
+        joinW ((upto K).map fun k => fmtExOptNat (mapCycleToSubset sv k)),
+        joinW ((upto S).map fun j => fmtExList (mapSubsetToSample sv cv j)),
+        joinW ((upto n).map fun i => fmtExOptNat (mapSampleToSubset sv cv i)),
+        joinW ((upto C).map fun c => fmtNatList (mapChainToSubset ch c)),
+        joinW ((upto S).map fun j => fmtExInt (mapSubsetToChain ch j)),
+        joinW ((upto K).map fun k => fmtExOptInt (mapCycleToChain ch sv k)),
+        joinW ((upto C).map fun c => fmtExList (mapChainToCycle ch sv c)),
+        joinW ((upto C).map fun c => fmtExList (mapChainToSamples ch sv cv c)),
+        joinW ((upto n).map fun i => fmtExOptInt (mapSampleToChain ch sv cv i)),
+        fmtOptRats (projectCyclesToSamples (optVals vc) cv),
+        fmtOptRats (projectSubsetToCycles (optVals vs) sv),
+        fmtOptRats (projectSubsetToSamples (optVals vs) sv cv),
+        fmtOptRats (projectChainToSubset (optVals vh) ch),
+        fmtOptRats (projectChainToCycles (optVals vh) ch sv),
+        fmtOptRats (projectChainToSamples (optVals vh) ch sv cv)]
+      return s!"ok S={S} C={C} | " ++ " | ".intercalate parts
+  | _ => none
 
 end Maps
